@@ -119,6 +119,17 @@ _steps = [0, 0]  # count, budget
 _tokens = [0]
 
 
+_FIRST = {}
+NO_PROGRESS_VISITS = 12
+
+
+def _first_line(code):
+    v = _FIRST.get(code)
+    if v is None:
+        v = _FIRST[code] = min(l for (_a, _b, l) in code.co_lines() if l is not None and l > code.co_firstlineno)
+    return v
+
+
 def _line_cb(code, line):
     _steps[0] += 1
     if _steps[0] > _steps[1]:
@@ -141,10 +152,24 @@ def _line_cb(code, line):
     if tok is None:
         _tokens[0] += 1
         tok = zf.__dict__["_vf_token"] = _tokens[0]
+    # a new invocation of _fill_buffer starts a new observation: "no progress" means the same line twice with the
+    # same state inside ONE invocation (repeated invocations at end of file legitimately see the same state)
+    if line == _first_line(code):
+        for k in [k for k in _last if k[0] == tok]:
+            del _last[k]
     key = (tok, line)
-    if _last.get(key) == st and d is not None and d.eof:
-        raise Hang("no progress in BinaryZlibFile._fill_buffer: line %d reached twice with state %r" % (line, st))
-    _last[key] = st
+    prev = _last.get(key)
+    # (state includes the identity of the decompressor object: a fresh one is progress.)  A statement spanning
+    # several source lines comes back to its first line within ONE execution, so a single repetition proves nothing:
+    # NO_PROGRESS_VISITS visits of one line with an identical state inside one invocation do.
+    st = st + (id(d),)
+    if prev is not None and prev[0] == st:
+        cnt = prev[1] + 1
+        if cnt >= NO_PROGRESS_VISITS:
+            raise Hang("no progress in BinaryZlibFile._fill_buffer: line %d reached %d times with state %r in one invocation" % (line, cnt, st[:-1]))
+        _last[key] = (st, cnt)
+    else:
+        _last[key] = (st, 1)
 
 
 def monitor_setup():
@@ -283,7 +308,13 @@ def work_memory(item):
     want = mod.f(1)
     mem = joblib.Memory(os.path.join(d, "cache"), verbose=0, compress=compress, mmap_mode=mmap_mode)
     cf = mem.cache(mod.f)
-    cf(1)
+    try:
+        cf(1)
+    except (Hang, Watchdog) as e:
+        sig = "memory-call-hang|compress=%s|intact-entry%s" % (compress, "" if mmap_mode is None else "|mmap_mode")
+        return {"n": 1, "viol": [[sig, "the first (computing) call on an empty cache did not terminate (compress=%s, mmap_mode=%r): %s" % (compress, mmap_mode, e),
+                                  {"part": "memory", "compress": compress, "mmap_mode": mmap_mode, "damage": "none", "tier": tier}]],
+                "outcomes": {"memory-call-hang": 1}, "distinct": 1, "sample": {"memory_entry_compress": compress, "mmap_mode": mmap_mode}}
     outs = []
     for root, _dirs, files in os.walk(os.path.join(d, "cache")):
         if "output.pkl" in files:
